@@ -172,6 +172,8 @@ def pvs_xml(spec: dict, prolog: str = "") -> str:
             sn = f"      <SystemName>{escape(d['system_name'])}</SystemName>"
             body = [sn] + body if d.get("first") else body + [sn]
         out += body
+        for j, pn in enumerate(d.get("partitions") or []):  # Boot Camp / physical-disk style partition lists with names of their own
+            out.append(f"      <Partition id=\"{j}\"><SystemName>{escape(pn)}</SystemName><Index>{j}</Index></Partition>")
         out.append(f'    </{d["kind"]}>')
     if spec.get("comments"):
         out.append("    <!-- end of hardware -->")
